@@ -5,7 +5,8 @@ Tie: B against gambit.kmers.find_kmers (set of (pos, reverse)) and gambit.sigs.c
 encoders the model calls (Gen/KmersPyx.v).  Oracle = extracted specification [signature_spec].
 
 Coverage table (audit of the property text; I = driven on the implementation, P = property predicate
-judged there; kinds: sig / find = original, api / findx / big = added by the audit):
+judged there; kinds: sig / find = original, api / findx / big = added by the coverage audit, state = added by the
+state and aliasing audit, see the second table):
 
   item                                              stream(s) -> kind                          I  P
   k = 1..32, every value                            all-k (each k, 6+ cases); before: 14 values  I  P  sig
@@ -41,8 +42,72 @@ judged there; kinds: sig / find = original, api / findx / big = added by the aud
   find_kmers: 4 types + keyword form; per strand    findx (k-mers per strand vs fwd_kmers spec;  I  P  findx
     k-mer sets, KmerMatch.kmer()/kmer_index()         kmer() consistent with kmer_index())
   not judged (not stated): yield order/multiplicity of matches, byte order of the dtype, accumulator
-  state after the call, a pre-filled accumulator, non-ASCII text, MutableSeq/memoryview, k > 32."""
+  state after a call of calc_signature, a pre-filled accumulator handed to calc_signature, non-ASCII
+  text, MutableSeq/memoryview, k > 32.
+
+State and aliasing (audit of what can outlive one call; kind `state` = a script of 2-6 calls over a pool of
+shared objects, every call judged by the specification).  Columns: (a) the object is REUSED by calls whose
+other arguments differ (other k / prefix / dtype / accumulator class / sequences / file content), in both
+orders; (b) compared after every call with its value before the call; (c) a call that FAILS part-way is
+followed by a good call on the same thread and objects; (d) every call is made twice, same result;
+(e) the call is also made from a second thread (one worker thread kept for the whole script, or a new
+thread) / in a forked worker process.  "before" = what the single-call kinds already did.
+
+  entry point                    object that outlives a call                   a  b  c  d  e   before the audit
+  KmerSpec(k, prefix)            the KmerSpec (frozen; 7 derived fields);      a  b  c  d  e   reused inside one case only,
+                                   built from str / a bytearray the caller                      same sequences (sig, api)
+                                   overwrites afterwards / numpy.int64 k
+  gambit.kmers.DEFAULT_KMERSPEC, module-level objects (spec 'default' is the   a  b  c  d  e   never used
+    gambit.seq.NUCLEOTIDES,        global itself; constants compared after
+    SEQ_TYPES                      every call)
+  find_kmers(kmerspec, seq)      seq object (bytes / bytearray / str / Seq /   a  b  -  d  e   fresh object per call
+                                   subclass), the lazy generator (two searches
+                                   advanced in turn), the KmerMatch objects
+                                   (kept; kmer(), kmer_index(), pos re-read
+                                   after every later call)
+  KmerMatch.kmer / kmer_index    the match, its seq and kmerspec references    a  b  -  d  e   read once (findx)
+  kmer_to_index(_rc), revcomp    const buffers (Cython): cannot be written;    -  b  -  -  e   -
+                                   reached through find / acc steps
+  calc_signature(kmerspec, seqs, seqs: the caller's LIST (one object per        a  b  c  d  e   fresh list per call; api
+    accumulator=)                  selection and representation, reused),                        c:same-object-twice
+                                   tuple / generator / iterator / deque /
+                                   custom iterable / bare sequence; its
+                                   elements; the returned array (kept, re-read
+                                   after every later call)
+                                 accumulator passed in (documented: added to;  a  b* c  d  e   api a:*-reused: one clear(),
+                                   2 live objects per (k, class), cleared by                    same k, result of the decoy
+                                   the script before each calc_signature)                       call dropped
+  accumulate_kmers(acc, ks, seq) the accumulator: NOT cleared between steps,   a  b* c  d  e   one fresh accumulator, one
+    + acc.signature() / clear()    signature() after every step = union of all                  signature() at the end
+                                   sequences added so far; several live
+                                   accumulators interleaved (class-level state)
+  default_accumulator(k)         (made inside calc_signature) must start empty a  -  c  d  e   implicitly, never after a failure
+  calc_file_signature(ks, file,  SequenceFile (frozen), the file on disk       a  b  c  d  e   new path per call, deleted after
+    accumulator=)                  (bytes compared), REWRITTEN by the caller
+                                   between calls (step rewrite: same object,
+                                   same path, other records); failures: FASTQ
+                                   quality line too short in the middle record,
+                                   truncated gzip stream (both raise after some
+                                   records were accumulated), missing file
+  calc_file_signatures(ks, files, the caller's list of SequenceFile, the        a  b  c  d  e   not driven here (C13 drives
+    concurrency=, executor=)       caller's Executor (kept for the script, must                  completion orders, fresh
+                                   stay usable), result SignatureList +                          objects)
+                                   kmerspec; concurrency None / threads /
+                                   caller's executor / processes (fork)
+  gambit signatures create       in-process CLI twice + once more with other   a  b  -  -  e   not driven here
+    -k -p -o -c 1                  k / prefix / rewritten files (process pool)
+  the CALLER changes an object   step mutate: a pool bytearray is overwritten  a  b  -  d  e   never
+    between calls                  in place (same or other length), immutable
+                                   forms replaced in the caller's list
+  b* = an accumulator is documented to be modified: its content is judged (union semantics) instead.
+  (c) failing calls: a non-ASCII str, None, int or float in the middle of the collection, or the caller's
+  generator raising after n items; what such a call returns or raises is NOT judged (counted in
+  state-fail:raised / returned), only the calls after it.  Not judged: which exception, the content of a
+  caller's accumulator after a failed call (cleared before its next use), open file handles, concurrent
+  calls racing on one accumulator (never advertised)."""
 import itertools
+import json
+import os
 
 import numpy as np
 
@@ -53,9 +118,16 @@ RULE = ('sig: (k, prefix, sequences) -> calc_signature for 4 input types x 2 acc
         'every call form (k / prefix / KmerSpec representation, container, element type, accumulator route, file) vs '
         'signature_spec + dtype_spec, non-trivial: non-empty signature; findx: find_kmers for 4 input types, k-mer sets '
         'per strand vs fwd_kmers spec and kmer() vs kmer_index(), non-trivial: >= 2 matches; big: generated long '
-        'sequences (described by seed) vs the Python reference of the specification, non-trivial: >= 100 k-mers')
+        'sequences (described by seed) vs the Python reference of the specification, non-trivial: >= 100 k-mers; state: a '
+        'script of 2-6 calls (calc_signature / accumulate_kmers+signature / find_kmers / calc_file_signature(s) / CLI create / '
+        'a call failing part-way / the caller overwriting a bytearray or a file) over shared KmerSpec, sequence, list, '
+        'accumulator, SequenceFile and executor objects, on the main, a worker or a new thread: every call made twice and judged '
+        'by signature_spec + dtype_spec, every shared object, module constant and earlier result compared with its value before '
+        'the call; non-trivial: >= 2 judged calls with a non-empty signature')
 TRUSTED = ['tools/pyx2v.py for the encoders; hand model of bytes.find / bytes.upper / slicing (CPython) in Model/C01.v',
-           'Biopython Seq slicing and bytes() agree with bytes']
+           'Biopython Seq slicing and bytes() agree with bytes',
+           'kind state: Biopython FASTA/FASTQ parsing of letters-only records, gzip, h5py round trip of `signatures create` (judged '
+           'elsewhere: C06, C19); CPython threading / concurrent.futures / fork start method of ProcessPoolExecutor']
 ASSUMPTIONS = ['str inputs are ASCII (the code raises otherwise); prefix is non-empty upper-case ACGT (KmerSpec validates it)',
                'the dense accumulator is executed for k <= 11 (k <= 13 in a few all-k cases) in the implementation and k <= 6 in the model',
                'k is a Python int or a NumPy integer scalar, signed or unsigned (what h5py hands to KmerSpec when a signature '
@@ -64,7 +136,12 @@ ASSUMPTIONS = ['str inputs are ASCII (the code raises otherwise); prefix is non-
                'fix: commit (KmerSpec: k = int(k), repo_fixes/C14-uint8-k.diff); judged like every other form, counted in '
                'extra[unsigned_k]',
                'kind big is judged by the Python reference _py_sig of the specification (cross-checked against the '
-               'extracted signature_spec on every api case), the Coq model is not run on those inputs']
+               'extracted signature_spec on every api case), the Coq model is not run on those inputs',
+               'kind state: steps are judged by _py_sig and every judged (k, prefix, sequences) of at most 400 bytes is also sent to '
+               'the extracted signature_spec; an accumulator handed to calc_signature is emptied by the caller first (a pre-filled '
+               'one is not stated), accumulate_kmers is judged with union semantics (documented: adds to the accumulator); the '
+               'outcome of a call that fails part-way is counted, not judged; calls on one script are sequential (threads are used '
+               'one at a time, except inside calc_file_signatures itself)']
 
 NUC = b'ACGT'
 
@@ -630,7 +707,653 @@ def k_big(ctx, cases):
 		_big_one(ctx, c)
 
 
-KINDS = {'sig': k_sig, 'find': k_find, 'api': k_api, 'findx': k_findx, 'big': k_big}
+# ---------------------------------------------------------------------------------------------
+# state / aliasing audit: kind `state` = a short script of calls over a small pool of shared objects
+# (see "state and aliasing" in the module docstring)
+# ---------------------------------------------------------------------------------------------
+STATE_FORMS = ('bytes', 'bytearray', 'str', 'seq', 'seq-str', 'mybytes')
+_FORM_TYPES = {'bytes': 'bytes', 'bytearray': 'bytearray', 'str': 'str', 'seq': 'Seq', 'seq-str': 'Seq', 'mybytes': '_MyBytes'}
+_DTNAME = {1: 'uint8', 2: 'uint16', 4: 'uint32', 8: 'uint64'}
+
+
+class _Boom(Exception):
+	"""raised by a caller-supplied iterator part-way through a collection"""
+
+
+class _StateFail(Exception):
+	def __init__(self, what, **values):
+		Exception.__init__(self, what)
+		self.what = what
+		self.values = values
+
+
+def _desc(items):
+	"""printable description of a list of sequence objects (repr of a Seq raises on non-ASCII data)"""
+	out = []
+	for x in list(items)[:12]:
+		try:
+			out.append(type(x).__name__ + ':' + (x.encode('latin-1', 'replace') if isinstance(x, str) else bytes(x)).hex()[:60])
+		except Exception:
+			out.append(type(x).__name__)
+	return out
+
+
+def _spec_obs(ks):
+	"""every public field of a KmerSpec, with the type of k (the type of .prefix is not compared: it is a bytearray, a
+	private copy, when the prefix was given as one)"""
+	return [type(ks.k).__name__, int(ks.k), bytes(ks.prefix).hex(), ks.prefix_str, ks.prefix_len, ks.total_len,
+	        int(ks.nkmers), str(ks.index_dtype)]
+
+
+def _spec_want(k, P):
+	return ['int', k, P.encode().hex(), P, len(P), k + len(P), 4 ** k, _DTNAME[_py_dts(k)]]
+
+
+def _write_seqfile(path, fmt, recs, bad, gz):
+	"""a FASTA / FASTQ file of letters-only records; bad = 'qual': the quality line of the middle record is too short
+	(the parser raises after it has handed over the records before it); 'trunc': gzip stream cut short; 'missing': no file"""
+	import gzip
+	out = []
+	for i, r in enumerate(recs):
+		if fmt == 'fastq':
+			q = b'I' * len(r)
+			if bad == 'qual' and i == len(recs) // 2:
+				q = q[:max(0, len(r) - 2)]
+			out.append(b'@rec%d some description\n%s\n+\n%s\n' % (i, r, q))
+		else:
+			w = (60, 7, 10 ** 9)[(len(r) + i) % 3]
+			out.append(b'>rec%d some description\n' % i + b''.join(r[j:j + w] + b'\n' for j in range(0, len(r), w)))
+	data = b''.join(out)
+	if gz:
+		data = gzip.compress(data, mtime=0)
+		if bad == 'trunc':
+			data = data[:max(12, len(data) - 9)]
+	if bad == 'missing':
+		if os.path.exists(path):
+			os.unlink(path)
+		return None
+	with open(path, 'wb') as f:
+		f.write(data)
+	return data
+
+
+def _state_validate(c):
+	"""ValueError for a script that refers to objects its pool does not have (the shrinker drops list items: such a
+	candidate is rejected, never reported)"""
+	def chk(cond):
+		if not cond:
+			raise ValueError('malformed state case')
+	specs, colls, files = c['specs'], c.get('colls', []), c.get('files', [])
+	ns, nq, nf = len(specs), len(c['seqs']), len(files)
+	for sp in specs:
+		chk(isinstance(sp, list) and len(sp) in (2, 3) and isinstance(sp[0], int) and 1 <= sp[0] <= 32 and isinstance(sp[1], str)
+		    and sp[1] and set(sp[1]) <= set('ACGT'))
+		chk(len(sp) == 2 or sp[2] in ('bytearray', 'np') or sp == [11, 'ATGAC', 'default'])
+	for sel in colls:
+		chk(all(0 <= j < nq for j in sel))
+	for f in files:
+		chk(f['fmt'] in ('fasta', 'fastq') and f.get('bad') in (None, 'qual', 'trunc', 'missing'))
+		chk(all(h and bytes.fromhex(h).isalpha() and max(bytes.fromhex(h)) < 128 for h in f['recs']))
+	for s in c['steps']:
+		op = s['op']
+		chk(op in ('calc', 'acc', 'find', 'fail', 'file', 'files', 'cli', 'mutate', 'rewrite'))
+		if op not in ('mutate', 'rewrite'):
+			chk(0 <= s['spec'] < ns)
+		if op in ('calc', 'fail'):
+			chk(0 <= s['coll'] < len(colls))
+		if op in ('acc', 'find', 'mutate'):
+			chk(0 <= s['seq'] < nq)
+		if op in ('file', 'rewrite'):
+			chk(0 <= s['file'] < nf)
+		if op == 'rewrite':
+			chk(all(h and bytes.fromhex(h).isalpha() and max(bytes.fromhex(h)) < 128 for h in s['recs']))
+		if op in ('files', 'cli'):
+			chk(all(0 <= f < nf for f in s['files']))
+		if op == 'cli':
+			chk(s['files'] and specs[s['spec']][0] >= 5 and len(specs[s['spec']][1]) >= 2)
+			chk(all(files[f]['fmt'] == 'fasta' for f in s['files']))
+		fm = s.get('form')
+		chk(fm is None or (fm in STATE_FORMS if isinstance(fm, str) else (len(fm) > 0 and all(x in STATE_FORMS for x in fm))))
+		w = s.get('with')
+		chk(not w or (len(w) == 3 and 0 <= w[0] < ns and 0 <= w[1] < nq and w[2] in STATE_FORMS))
+		chk(not s.get('acc') or s['acc'][0] in ('set', 'array'))
+		chk(s.get('bad') in (None, 'nonascii', 'none', 'int', 'float', 'boom', 'qual', 'trunc', 'missing'))
+		chk(s.get('conc') in (None, 'none', 'threads', 'executor', 'processes'))
+		chk(s.get('thread') in (None, 0, 1, 2))
+
+
+def _state_one(ctx, c, modelreqs):
+	"""run one script; raises _StateFail at the first step that breaks the property or leaves a caller object changed"""
+	import collections
+	import concurrent.futures as cf
+	import threading
+	import gambit.kmers as gk
+	import gambit.seq as gseq
+	from gambit.kmers import KmerSpec, find_kmers
+	from gambit.sigs.calc import (calc_signature, calc_file_signature, calc_file_signatures, ArrayAccumulator, SetAccumulator,
+	                              accumulate_kmers)
+	from gambit.seq import SequenceFile
+
+	_state_validate(c)
+	content = [bytes.fromhex(h) for h in c['seqs']]
+	lits = [(int(s[0]), str(s[1])) for s in c['specs']]
+	specs = []
+	for sp in c['specs']:
+		src = sp[2] if len(sp) > 2 else None
+		if src == 'default':
+			specs.append(gk.DEFAULT_KMERSPEC)              # the module-level object itself
+		elif src == 'bytearray':
+			buf = bytearray(str(sp[1]).encode())
+			specs.append(KmerSpec(int(sp[0]), buf))
+			buf[:] = b'N' * len(buf)                       # the caller reuses its buffer afterwards
+		elif src == 'np':
+			specs.append(KmerSpec(np.int64(sp[0]), str(sp[1])))
+		else:
+			specs.append(KmerSpec(int(sp[0]), str(sp[1])))
+	colls = c.get('colls', [])
+	objs = [dict() for _ in content]       # pool: one object per (sequence, representation), created once, reused by every step
+	lists = {}                             # pool: the caller's list objects, one per (selection, representation)
+	accs = {}                              # pool: accumulators, [object, tracked content or None when unknown]
+	held = []                              # arrays returned by earlier calls, with their value at return time
+	heldm = []                             # KmerMatch objects of earlier find_kmers calls on immutable sequences
+	st = {}                                # worker thread, executor
+	files = []                             # pool: SequenceFile objects, [object, literal, bytes on disk, path]
+	flists = {}
+	stats = dict(judged=0, nonempty=0)
+	base = os.path.join(_scratch(), f'state-{next(_FILENO)}')
+
+	for n, f in enumerate(c.get('files', [])):
+		ext = ('.fq' if f['fmt'] == 'fastq' else '.fasta') + ('.gz' if f.get('gz') else '')
+		path = f'{base}-{n}{ext}'
+		recs = [bytes.fromhex(h) for h in f['recs']]
+		data = _write_seqfile(path, f['fmt'], recs, f.get('bad'), f.get('gz'))
+		files.append([SequenceFile(path, f['fmt'], 'gzip' if f.get('gz') else None), dict(f, recs=recs), data, path])
+
+	def fail(n, s, what, **values):
+		raise _StateFail(f'step {n} {json.dumps(s)}: {what}', step=n, **values)
+
+	def obj(j, form):
+		d = objs[j]
+		if form not in d:
+			try:
+				d[form] = _elem(content[j], form)
+			except _Skip:
+				return obj(j, 'bytes')
+		return d[form]
+
+	def form_at(s, i):
+		fs = s.get('form', 'bytes')
+		return fs[i % len(fs)] if isinstance(fs, list) else fs
+
+	def elements(s):
+		return [obj(j, form_at(s, i)) for i, j in enumerate(colls[s['coll']])]
+
+	def container(s):
+		"""the caller's list (one object per selection and representation, reused) or a fresh container of pool objects"""
+		cont = s.get('cont', 'list')
+		if cont == 'list':
+			key = (s['coll'], json.dumps(s.get('form', 'bytes')))
+			if key not in lists:
+				els = elements(s)
+				lists[key] = [els, list(els), s]
+			return lists[key][0]
+		els = elements(s)
+		if cont == 'bare' and len(els) == 1:
+			return els[0]
+		if cont == 'tuple':
+			return tuple(els)
+		if cont == 'gen':
+			return (x for x in els)
+		if cont == 'iter':
+			return iter(els)
+		if cont == 'deque':
+			return collections.deque(els)
+		if cont == 'iterable':
+			return _Iterable(els)
+		return list(els)
+
+	def acc_entry(s, i):
+		"""pool accumulator named by the step (None = let the call make its own)"""
+		a = s.get('acc')
+		if not a:
+			return None
+		k = lits[i][0]
+		cls = a[0] if k <= 11 else 'set'
+		key = (k, cls, a[1] if len(a) > 1 else 0)
+		if key not in accs:
+			accs[key] = [ArrayAccumulator(k) if cls == 'array' else SetAccumulator(k), set()]
+		return accs[key]
+
+	def run(thread, fn):
+		"""0: this thread; 1: the script's worker thread (the same one for every step); 2: a new thread"""
+		if not thread:
+			return fn()
+		if thread == 1:
+			if 'worker' not in st:
+				st['worker'] = cf.ThreadPoolExecutor(max_workers=1)
+			return st['worker'].submit(fn).result()
+		box = {}
+
+		def target():
+			try:
+				box['r'] = fn()
+			except BaseException as e:
+				box['e'] = e
+		t = threading.Thread(target=target)
+		t.start()
+		t.join()
+		if 'e' in box:
+			raise box['e']
+		return box['r']
+
+	def judge(n, s, got, want, how=''):
+		o = _obs(got)
+		if isinstance(got, np.ndarray):
+			held.append((got, o))
+		stats['judged'] += 1
+		stats['nonempty'] += bool(want[0])
+		if o != want:
+			fail(n, s, f'{how}signature {str(o[0])[:200]} (item size {o[1]}) but the set of prefix-anchored k-mers of these sequences is '
+			     f'{want[0][:20]} (item size {want[1]})', impl=o, spec=want)
+
+	def want_sig(i, seqs):
+		k, P = lits[i]
+		w = (_py_sig(k, P.encode(), seqs), _py_dts(k))
+		if sum(len(x) for x in seqs) <= 400:
+			modelreqs.append(([k, P.encode(), [bytes(x) for x in seqs]], w[0]))
+		return w
+
+	def invariants(n, s):
+		for j, d in enumerate(objs):
+			for form, o in d.items():
+				val = o.encode('latin-1') if isinstance(o, str) else bytes(o)
+				if type(o).__name__ != _FORM_TYPES[form] or val != content[j]:
+					fail(n, s, f'the caller\'s sequence object {j} ({form}) was {content[j]!r} before the call and is {type(o).__name__} {val!r} after it',
+					     impl=val.hex(), spec=content[j].hex())
+		for key, (lst, snap, _) in lists.items():
+			if len(lst) != len(snap) or any(x is not y for x, y in zip(lst, snap)):
+				fail(n, s, f'the caller\'s list of sequences (selection {colls[key[0]]}, {key[1]}) was changed by the call: '
+				     f'{len(snap)} items before, now {len(lst)} items / other objects', impl=_desc(lst), spec=_desc(snap))
+		for i, ks in enumerate(specs):
+			if _spec_obs(ks) != _spec_want(*lits[i]):
+				fail(n, s, f'the caller\'s KmerSpec {lits[i]} now has the fields {_spec_obs(ks)}', impl=_spec_obs(ks), spec=_spec_want(*lits[i]))
+		if _spec_obs(gk.DEFAULT_KMERSPEC) != _spec_want(11, 'ATGAC') or gseq.NUCLEOTIDES != b'ACGT' or gk.NUCLEOTIDES != b'ACGT' \
+		   or tuple(t.__name__ for t in gseq.SEQ_TYPES) != ('str', 'bytes', 'bytearray', 'Seq'):
+			fail(n, s, f'module-level constants changed: DEFAULT_KMERSPEC {_spec_obs(gk.DEFAULT_KMERSPEC)}, NUCLEOTIDES {gseq.NUCLEOTIDES!r}, '
+			     f'SEQ_TYPES {gseq.SEQ_TYPES}', impl=_spec_obs(gk.DEFAULT_KMERSPEC))
+		for arr, snap in held:
+			if _obs(arr) != snap:
+				fail(n, s, f'an array returned by an earlier call was {str(snap)[:200]} and now reads {str(_obs(arr))[:200]}', impl=_obs(arr), spec=snap)
+		for m, idx, km, pos, rev in heldm:
+			now = (_kidx(m), bytes(m.kmer()), m.pos, bool(m.reverse))
+			if now != (idx, km, pos, rev):
+				fail(n, s, f'a KmerMatch of an earlier find_kmers call was {(idx, km, pos, rev)} and now reads {now}', impl=list(map(str, now)))
+		for sf, lit, data, path in files:
+			if (str(sf.path), sf.format, sf.compression) != (path, lit['fmt'], 'gzip' if lit.get('gz') else None):
+				fail(n, s, f'the caller\'s SequenceFile changed: {sf!r}', impl=repr(sf))
+			now = open(path, 'rb').read() if os.path.exists(path) else None
+			if now != data:
+				fail(n, s, f'the sequence file {os.path.basename(path)} was changed on disk by a call that only reads it', impl=repr(now)[:200])
+		for key, (lst, snap) in flists.items():
+			if len(lst) != len(snap) or any(x is not y for x, y in zip(lst, snap)):
+				fail(n, s, f'the caller\'s list of files {list(key)} was changed by the call', impl=[str(x) for x in lst][:10])
+
+	def guarded(n, s, fn):
+		try:
+			return fn()
+		except _StateFail:
+			raise
+		except Exception as e:
+			fail(n, s, f'raised {type(e).__name__}: {e}', impl=repr(e))
+
+	# ---- the steps -------------------------------------------------------------------------------------------
+	def do_calc(n, s):
+		i = s['spec']
+		want = want_sig(i, [content[j] for j in colls[s['coll']]])
+		a = acc_entry(s, i)
+		for rep in range(2):
+			if a is not None:
+				a[0].clear()       # an accumulator the caller passes in is documented to be added to: start it empty
+				a[1] = set()
+			cont = container(s)
+			if s.get('kw'):
+				got = guarded(n, s, lambda: run(s.get('thread', 0), lambda: calc_signature(seqs=cont, kmerspec=specs[i], accumulator=a[0] if a else None)))
+			elif a is None:
+				got = guarded(n, s, lambda: run(s.get('thread', 0), lambda: calc_signature(specs[i], cont)))
+			else:
+				got = guarded(n, s, lambda: run(s.get('thread', 0), lambda: calc_signature(specs[i], cont, accumulator=a[0])))
+			judge(n, s, got, want, 'second identical call: ' if rep else '')
+			if a is not None:
+				a[1] = set(want[0])
+			invariants(n, s)
+
+	def do_acc(n, s):
+		i, j = s['spec'], s['seq']
+		k, P = lits[i]
+		a = acc_entry(dict(s, acc=s.get('acc') or ['set']), i)
+		if a[1] is None or s.get('clear'):
+			guarded(n, s, a[0].clear)
+			a[1] = set()
+			if s.get('clear'):
+				judge(n, s, guarded(n, s, a[0].signature), ([], _py_dts(k)), 'after clear(): ')
+		new = want_sig(i, [content[j]])
+		want = (sorted(a[1] | set(new[0])), new[1])
+		for rep in range(2):
+			o = obj(j, s.get('form', 'bytes'))
+			guarded(n, s, lambda: run(s.get('thread', 0), lambda: accumulate_kmers(a[0], specs[i], o)))
+			a[1] = set(want[0])
+			judge(n, s, guarded(n, s, a[0].signature), want, 'accumulate_kmers then signature() (the same sequence added again): ' if rep else
+			      'accumulate_kmers then signature(): ')
+			invariants(n, s)
+
+	def do_find(n, s):
+		todo = [(s['spec'], s['seq'], s.get('form', 'bytes'))] + ([tuple(s['with'])] if s.get('with') else [])
+		for rep in range(2):
+			def consume():
+				gens = [find_kmers(specs[i], obj(j, f)) for i, j, f in todo]
+				outs = [[] for _ in gens]
+				live = list(range(len(gens)))
+				while live:          # two searches advanced in turn
+					for g in list(live):
+						try:
+							outs[g].append(next(gens[g]))
+						except StopIteration:
+							live.remove(g)
+				return outs
+			outs = guarded(n, s, lambda: run(s.get('thread', 0), consume))
+			for (i, j, f), ms in zip(todo, outs):
+				k, P = lits[i]
+				want = (sorted(set(_py_fwd(k, P.encode(), content[j]))), sorted(set(_py_fwd(k, P.encode(), _py_rc(content[j])))))
+				got = ([], [])
+				for m in ms:
+					idx = guarded(n, s, lambda: _kidx(m))
+					if idx is not None:
+						got[1 if m.reverse else 0].append(idx)
+						if f != 'bytearray' and len(heldm) < 40:
+							heldm.append((m, idx, bytes(m.kmer()), m.pos, bool(m.reverse)))
+				got = (sorted(set(got[0])), sorted(set(got[1])))
+				stats['judged'] += 1
+				stats['nonempty'] += bool(want[0] or want[1])
+				if got != want:
+					fail(n, s, f'find_kmers({lits[i]}, sequence {j} as {f}): valid k-mers per strand (forward, reverse) = {str(got)[:300]} but the k-mers '
+					     f'that follow an occurrence of the prefix are {str(want)[:300]}', impl=got, spec=want)
+			invariants(n, s)
+
+	def do_fail(n, s):
+		"""a call that fails part-way: a bad element in the middle of the collection, or the caller's iterator raises"""
+		i = s['spec']
+		els = elements(s)
+		at = min(s.get('at', 0), len(els))
+		bad = s.get('bad', 'none')
+		a = acc_entry(s, i)
+		for rep in range(2):
+			if bad == 'boom':
+				def it():
+					yield from els[:at]
+					raise _Boom('caller iterator failed')
+				cont = it()
+				snap = None
+			else:
+				cont = els[:at] + [{'nonascii': 'ACéGT', 'none': None, 'int': 7, 'float': 2.5}[bad]] + els[at:]
+				snap = list(cont)
+			try:
+				run(s.get('thread', 0), lambda: calc_signature(specs[i], cont, accumulator=a[0] if a else None))
+				ctx.count('state-fail:returned')     # not stated by the property: counted, not judged
+			except Exception:
+				ctx.count('state-fail:raised')
+			if a is not None:
+				a[1] = None                          # content after a failed call: not stated; cleared before the next use
+			if snap is not None and (len(cont) != len(snap) or any(x is not y for x, y in zip(cont, snap))):
+				fail(n, s, 'the caller\'s list of sequences was changed by a call that failed', impl=_desc(cont))
+			invariants(n, s)
+
+	def file_want(i, f):
+		return want_sig(i, files[f][1]['recs'])
+
+	def do_file(n, s):
+		i, f = s['spec'], s['file']
+		a = acc_entry(s, i)
+		isbad = files[f][1].get('bad')
+		for rep in range(2):
+			if a is not None:
+				a[0].clear()
+				a[1] = set()
+			call = lambda: run(s.get('thread', 0), lambda: calc_file_signature(specs[i], files[f][0], **(dict(accumulator=a[0]) if a else {})))
+			if isbad:
+				try:
+					call()
+					ctx.count('state-fail:returned')
+				except Exception:
+					ctx.count('state-fail:raised')
+				if a is not None:
+					a[1] = None
+			else:
+				want = file_want(i, f)
+				judge(n, s, guarded(n, s, call), want, f'calc_file_signature (file {f}{", second identical call" if rep else ""}): ')
+				if a is not None:
+					a[1] = set(want[0])
+			invariants(n, s)
+
+	def do_files(n, s):
+		i = s['spec']
+		key = tuple(s['files'])
+		if key not in flists:
+			lst = [files[f][0] for f in key]
+			flists[key] = [lst, list(lst)]
+		lst = flists[key][0]
+		conc = s.get('conc', 'none')
+		kw = dict(concurrency=None)
+		if conc == 'threads':
+			kw = dict(concurrency='threads', max_workers=2)
+		elif conc == 'processes':
+			kw = dict(concurrency='processes', max_workers=1)
+		elif conc == 'executor':
+			if 'executor' not in st:
+				st['executor'] = cf.ThreadPoolExecutor(max_workers=2)
+			kw = dict(executor=st['executor'])
+		isbad = any(files[f][1].get('bad') for f in key)
+		for rep in range(1 if conc == 'processes' else 2):
+			call = lambda: run(s.get('thread', 0), lambda: calc_file_signatures(specs[i], lst, **kw))
+			if isbad:
+				try:
+					call()
+					ctx.count('state-fail:returned')
+				except Exception:
+					ctx.count('state-fail:raised')
+			else:
+				res = guarded(n, s, call)
+				if len(res) != len(key):
+					fail(n, s, f'calc_file_signatures returned {len(res)} signatures for {len(key)} files', impl=len(res))
+				if _spec_obs(res.kmerspec) != _spec_want(*lits[i]):
+					fail(n, s, f'calc_file_signatures: the result carries the KmerSpec {_spec_obs(res.kmerspec)}', impl=_spec_obs(res.kmerspec))
+				for pos, f in enumerate(key):
+					judge(n, s, np.asarray(res[pos]), file_want(i, f), f'calc_file_signatures ({conc}), file {f} at position {pos}: ')
+			invariants(n, s)
+
+	def do_cli(n, s):
+		import click.testing
+		import gambit.cli
+		from gambit.sigs import load_signatures
+		i = s['spec']
+		k, P = lits[i]
+		key = tuple(s['files'])
+		out = f'{base}-out{n}.gs'
+		args = ['signatures', 'create', '-k', str(k), '-p', P, '-o', out, '--no-progress', '-c', '1'] + [files[f][3] for f in key]
+		r = guarded(n, s, lambda: click.testing.CliRunner().invoke(gambit.cli.cli, args))
+		if r.exit_code != 0:
+			fail(n, s, f'gambit signatures create: exit code {r.exit_code}: {r.output[-300:]} {r.exception!r}', impl=r.exit_code)
+		try:
+			with load_signatures(out) as res:
+				if _spec_obs(res.kmerspec) != _spec_want(k, P) or len(res) != len(key):
+					fail(n, s, f'gambit signatures create: file has {len(res)} signatures, KmerSpec {_spec_obs(res.kmerspec)}', impl=_spec_obs(res.kmerspec))
+				for pos, f in enumerate(key):
+					judge(n, s, np.asarray(res[pos]), file_want(i, f), f'gambit signatures create, file {f} at position {pos}: ')
+		finally:
+			if os.path.exists(out):
+				os.unlink(out)
+		invariants(n, s)
+
+	def do_mutate(n, s):
+		"""the CALLER changes one of its sequences: the bytearray in place, the immutable representations are replaced"""
+		j = s['seq']
+		new = bytes.fromhex(s['new'])
+		content[j] = new
+		d = objs[j]
+		for form in list(d):
+			if form == 'bytearray':
+				d[form][:] = new
+			else:
+				del d[form]
+		for key, ent in lists.items():
+			for pos, jj in enumerate(colls[key[0]]):
+				if jj == j:
+					ent[0][pos] = ent[1][pos] = obj(j, form_at(ent[2], pos))
+
+	def do_rewrite(n, s):
+		"""the CALLER writes other records to the path of one of its SequenceFile objects"""
+		ent = files[s['file']]
+		recs = [bytes.fromhex(h) for h in s['recs']]
+		ent[1] = dict(ent[1], recs=recs, bad=s.get('bad'))
+		ent[2] = _write_seqfile(ent[3], ent[1]['fmt'], recs, s.get('bad'), ent[1].get('gz'))
+
+	ops = dict(calc=do_calc, acc=do_acc, find=do_find, fail=do_fail, file=do_file, files=do_files, cli=do_cli, mutate=do_mutate,
+	           rewrite=do_rewrite)
+	try:
+		for n, s in enumerate(c['steps']):
+			ops[s['op']](n, s)
+			ctx.count('state-step:' + s['op'])
+	finally:
+		for key in ('worker', 'executor'):
+			if key in st:
+				st[key].shutdown(wait=True)
+		for ent in files:
+			if os.path.exists(ent[3]):
+				os.unlink(ent[3])
+	return stats
+
+
+def _state_merge(a, b):
+	"""one script = the calls of script a followed by the calls of script b (pools concatenated, references shifted)"""
+	ns, nq, nc, nf = len(a['specs']), len(a['seqs']), len(a.get('colls', [])), len(a.get('files', []))
+	steps = [dict(s) for s in a['steps']]
+	for s in b['steps']:
+		s = dict(s)
+		for key, off in (('spec', ns), ('coll', nc), ('seq', nq), ('file', nf)):
+			if key in s:
+				s[key] += off
+		if 'files' in s:
+			s['files'] = [f + nf for f in s['files']]
+		if s.get('with'):
+			s['with'] = [s['with'][0] + ns, s['with'][1] + nq, s['with'][2]]
+		steps.append(s)
+	out = dict(specs=a['specs'] + b['specs'], seqs=a['seqs'] + b['seqs'],
+	           colls=a.get('colls', []) + [[j + nq for j in sel] for sel in b.get('colls', [])], steps=steps)
+	if a.get('files') or b.get('files'):
+		out['files'] = a.get('files', []) + b.get('files', [])
+	return out
+
+
+_STATE_REPORTED = {}      # campaign: script (as JSON) -> violation reported for it
+_STATE_CAMPAIGN = []      # non-empty once generate() ran in this process
+_STATE_PREV = []          # the last scripts run by this process
+_STATE_BUDGET = [5]       # violations still to be re-run in a new interpreter
+_STATE_CHILD = """
+import json, sys
+from vf.main import Ctx
+import harness.c01 as h
+ctx = Ctx('C01', 'quick', 0, sys.argv[1])
+ctx.replaying = True
+ctx.model_ok = False
+h.k_state(ctx, [json.load(sys.stdin)])
+print('STATE-CHILD ' + json.dumps([[v['what'], v['values']] for v in ctx.violations], default=str))
+"""
+
+
+def _state_fresh(ctx, case):
+	"""run one script in a NEW interpreter (same implementation, no model): None, or (what, values) of its violation"""
+	import subprocess
+	import sys
+	try:
+		r = subprocess.run([sys.executable, '-c', _STATE_CHILD, ctx.repo], input=json.dumps(case), capture_output=True, text=True, timeout=300)
+	except subprocess.TimeoutExpired:
+		return None
+	for line in r.stdout.splitlines():
+		if line.startswith('STATE-CHILD '):
+			vs = json.loads(line[len('STATE-CHILD '):])
+			return tuple(vs[0]) if vs else None
+	return None
+
+
+def _state_selfcontained(ctx, c, e, prev):
+	"""State left behind by an EARLIER script of this process (a module-level or per-thread cache) shows in a later one.
+	Report a script that fails in a fresh interpreter: the failing one, else the failing one preceded by the 1, 2, 3, 6, 12
+	or 24 scripts run before it."""
+	merged = c
+	back = prev[::-1]
+	for n in (0, 1, 2, 3, 6, 12, 24):
+		if n > len(back):
+			break
+		merged = c
+		for p in back[:n]:
+			merged = _state_merge(p, merged)
+		r = _state_fresh(ctx, merged)
+		if r is not None:
+			return merged, _StateFail(r[0], **r[1])
+	return c, _StateFail(e.what + ' [not reproduced by this script alone in a new process, nor preceded by the 24 scripts before it: it '
+	                     'depends on calls made earlier in the campaign, re-run the campaign with the same VERIF_SEED]', **e.values)
+
+
+def k_state(ctx, cases):
+	if ctx.replaying and _STATE_CAMPAIGN:
+		# the generic shrinker re-runs candidates in the process of the campaign, where state left by the campaign (or by the
+		# previous candidate) decides the outcome: scripts are reported as found, only the reported script "fails"
+		for c in cases:
+			v = _STATE_REPORTED.get(json.dumps(c, sort_keys=True))
+			if v is not None:
+				ctx.violation('state', c, v[0], **v[1])
+		return
+	modelreqs = []
+	prev = _STATE_PREV
+	for c in cases:
+		reqs = []
+		del prev[:-24]
+		try:
+			stats = _state_one(ctx, c, reqs)
+		except _StateFail as e:
+			rc = c
+			if not ctx.replaying:
+				unverified = True
+				if len(_STATE_REPORTED) < 3 and _STATE_BUDGET[0] > 0:
+					_STATE_BUDGET[0] -= 1
+					rc, e = _state_selfcontained(ctx, c, e, list(prev))
+					unverified = 'not reproduced by this script alone' in e.what
+				if unverified and _STATE_REPORTED:
+					# a script was already reported for this run: count the ones that are not known to fail on their own in a new
+					# process, do not add replay files that may not reproduce
+					ctx.count('state-violation-not-verified-self-contained')
+					prev.append(c)
+					continue
+			_STATE_REPORTED.setdefault(json.dumps(rc, sort_keys=True), (e.what, e.values))
+			ctx.case(rc, nontrivial=True)
+			ctx.violation('state', rc, e.what, **e.values)
+			prev.append(c)
+			continue
+		prev.append(c)
+		ctx.case(c, nontrivial=stats['nonempty'] >= 2)
+		modelreqs += reqs
+	# the Python reference that judged the steps against the extracted specification
+	if ctx.model_ok and modelreqs:
+		uniq = {}
+		for arg, want in modelreqs:
+			uniq.setdefault(json.dumps([arg[0], arg[1].hex(), [x.hex() for x in arg[2]]]), (arg, want))
+		vals = list(uniq.values())
+		ans = ctx.model([(103, arg) for arg, _ in vals])
+		for (arg, want), got in zip(vals, ans):
+			if got != want:
+				ctx.broke('harness reference (_py_sig) vs extracted signature_spec', f'{arg}: python {want[:10]} coq {got[:10]}')
+
+
+KINDS = {'sig': k_sig, 'find': k_find, 'api': k_api, 'findx': k_findx, 'big': k_big, 'state': k_state}
 BATCH = 500
 
 
@@ -640,6 +1363,7 @@ def _rc(b):
 
 def generate(ctx):
 	rng = ctx.rng
+	_STATE_CAMPAIGN.append(True)
 	ctx.rule(RULE)
 	prefixes = ['A', 'T', 'AT', 'AA', 'AC', 'GT', 'ACG']
 	alpha = b'ACGTN'
@@ -815,6 +1539,235 @@ def generate(ctx):
 		p = rand_prefix(1, 9)
 		ctx.count('stream:findx-random')
 		yield 'findx', dict(k=k, prefix=p.decode(), seq=planted(k, p, rng.choice(lens_for(k, len(p)) + [400])).hex())
+	# ------------------------------------------------------------------------------------------
+	# state / aliasing scripts (kind `state`, see "state and aliasing" in the module docstring): 2-6 calls over a
+	# pool of shared KmerSpec / sequence / list / accumulator / SequenceFile objects, every call judged by the
+	# specification, every pool object compared with its value before the call, every call made twice
+	# ------------------------------------------------------------------------------------------
+	def state_specs():
+		k = rng.choice([1, 2, 3, 4, 5, 6, 8, 9, 11, 12, 16, 17, 31, 32])
+		p = rand_prefix(1, 5).decode()
+		out = [[k, p]]
+		for _ in range(rng.choice([1, 1, 2])):
+			how = rng.randrange(5)
+			if how == 0:        # same k, another prefix of the same length
+				out.append([k, bytes(rng.choice(NUC) for _ in p).decode()])
+			elif how == 1:      # same prefix, neighbouring k
+				out.append([min(32, max(1, k + rng.choice([-1, 1, 1, 2]))), p])
+			elif how == 2:      # same prefix, k on the other side of a dtype / default-accumulator boundary
+				out.append([rng.choice([4, 5, 8, 9, 11, 12, 16, 17, 32]), p])
+			elif how == 3:      # an equal but distinct KmerSpec object
+				out.append([k, p])
+			else:
+				out.append([rng.randint(1, 32), rand_prefix(1, 5).decode()])
+		if rng.random() < 0.06:
+			out.append([11, 'ATGAC', 'default'])     # the module-level DEFAULT_KMERSPEC object itself
+		for sp in out:
+			if len(sp) == 2 and rng.random() < 0.15:
+				sp.append(rng.choice(['bytearray', 'np']))   # built from a buffer the caller reuses / from a NumPy scalar
+		rng.shuffle(out)
+		return out
+
+	def state_case(flavour):
+		specs = state_specs()
+		if flavour == 'cli':
+			specs = [[rng.choice([5, 6, 8, 9, 11, 12, 16, 17, 32]), rand_prefix(2, 5).decode()] for _ in range(2)]
+		ns = len(specs)
+
+		def seq_for(letters=False):
+			k, p = rng.choice(specs)[:2]
+			return planted(k, p.encode(), rng.choice([0, 1] * (not letters) + [len(p) + k, len(p) + k + 1, 2 * (len(p) + k), 40, 90, 200]),
+			               alphabet=rng.choice([b'ACGT', b'ACGTN', b'ACGTacgtNn']) if letters else None, nplant=rng.randint(1, 5))
+		seqs = [seq_for() for _ in range(rng.randint(3, 5))]
+		colls = [[rng.randrange(len(seqs)) for _ in range(rng.choice([0, 1, 1, 2, 2, 3, 4]))] for _ in range(rng.randint(2, 3))]
+		if not any(colls):
+			colls[0] = [0, 1]
+		files = []
+		if flavour in ('file', 'cli', 'mix'):
+			for _ in range(rng.randint(2, 3)):
+				recs = []
+				while len(recs) < rng.randint(1, 3):
+					r = seq_for(letters=True)
+					if r and r.isalpha() and all(x < 128 for x in r):
+						recs.append(r)
+				fmt = 'fasta' if flavour == 'cli' or rng.random() < 0.7 else 'fastq'
+				f = dict(fmt=fmt, recs=[r.hex() for r in recs])
+				if rng.random() < 0.3:
+					f['gz'] = True
+				if flavour != 'cli' and rng.random() < 0.3:
+					f['bad'] = 'qual' if fmt == 'fastq' else 'trunc' if f.get('gz') else 'missing'
+				files.append(f)
+			if all(f.get('bad') for f in files):
+				del files[0]['bad']
+
+		def put(d, **kw):
+			d.update({a: b for a, b in kw.items() if b is not None and b is not False})
+			return d
+
+		def thread():
+			return rng.choice([None, None, None, 1, 1, 2])
+
+		def form():
+			if rng.random() < 0.2:
+				return [rng.choice(STATE_FORMS) for _ in range(rng.randint(2, 4))]
+			return rng.choice(STATE_FORMS + ('bytearray', 'bytes'))
+
+		def accsel(i):
+			r = rng.random()
+			if r < 0.45:
+				return None
+			k = specs[i][0]
+			return ['array' if (k <= 9 or (k <= 11 and rng.random() < 0.2)) and r < 0.75 else 'set', rng.randrange(2)]
+
+		def calc(i=None, **kw):
+			i = rng.randrange(ns) if i is None else i
+			s = put(dict(op='calc', spec=i, coll=rng.randrange(len(colls))), form=form(), acc=accsel(i), thread=thread(),
+			        cont=rng.choice(['list', 'list', 'list', 'tuple', 'gen', 'iter', 'deque', 'bare', 'iterable']), kw=rng.random() < 0.1)
+			return put(s, **kw)
+
+		def acc(i=None):
+			i = rng.randrange(ns) if i is None else i
+			return put(dict(op='acc', spec=i, seq=rng.randrange(len(seqs))), form=form() if rng.random() < 0.0 else rng.choice(STATE_FORMS),
+			           acc=accsel(i) or ['set', rng.randrange(2)], thread=thread(), clear=rng.random() < 0.15)
+
+		def find():
+			s = put(dict(op='find', spec=rng.randrange(ns), seq=rng.randrange(len(seqs))), form=rng.choice(STATE_FORMS), thread=thread())
+			if rng.random() < 0.5:
+				s['with'] = [rng.randrange(ns), rng.randrange(len(seqs)), rng.choice(STATE_FORMS)]
+			return s
+
+		def failing(i, a, th):
+			return put(dict(op='fail', spec=i, coll=rng.randrange(len(colls))), form=form(), at=rng.randint(0, 3),
+			           bad=rng.choice(['nonascii', 'none', 'int', 'float', 'boom', 'boom']), acc=a, thread=th)
+
+		def mutate():
+			j = rng.randrange(len(seqs))
+			new = bytearray(seq_for())
+			if rng.random() < 0.6 and len(seqs[j]):
+				# same length, other content (an object that looks the same from outside)
+				k, p = rng.choice(specs)[:2]
+				new = bytearray(planted(k, p.encode(), len(seqs[j]), nplant=rng.randint(1, 5)))
+				if rng.random() < 0.3:
+					new = bytearray(seqs[j])
+					for _ in range(rng.randint(1, 4)):
+						new[rng.randrange(len(new))] = rng.choice(b'ACGTacgtN')
+			seqs[j] = bytes(new)
+			return dict(op='mutate', seq=j, new=bytes(new).hex())
+
+		def goodfiles():
+			return [n for n, f in enumerate(files) if not f.get('bad')]
+
+		def filestep(i=None):
+			i = rng.randrange(ns) if i is None else i
+			return put(dict(op='file', spec=i, file=rng.randrange(len(files))), acc=accsel(i), thread=thread())
+
+		def filesstep():
+			pick_from = goodfiles() if rng.random() < 0.8 else list(range(len(files)))
+			return put(dict(op='files', spec=rng.randrange(ns), files=[rng.choice(pick_from) for _ in range(rng.randint(1, 3))],
+			                conc=rng.choice(['none', 'threads', 'executor', 'executor'])), thread=rng.choice([None, None, 1]))
+
+		def rewrite():
+			f = rng.randrange(len(files))
+			recs = []
+			while len(recs) < rng.randint(1, 3):
+				r = seq_for(letters=True)
+				if r and r.isalpha() and all(x < 128 for x in r):
+					recs.append(r)
+			files[f] = dict(files[f], bad=None)
+			return dict(op='rewrite', file=f, recs=[r.hex() for r in recs])
+
+		seqs0 = [s.hex() for s in seqs]
+		files0 = [dict(f) for f in files]
+		steps = []
+		if flavour == 'calc':
+			steps = [calc(cont='list' if rng.random() < 0.7 else 'tuple') for _ in range(rng.randint(3, 6))]
+		elif flavour == 'fail':
+			for _ in range(rng.randint(1, 2)):
+				i, th = rng.randrange(ns), thread()
+				a = accsel(i)
+				if rng.random() < 0.4:
+					steps.append(calc(i, thread=th))
+				steps.append(failing(i, a, th))
+				if rng.random() < 0.3:
+					steps.append(calc(thread=th))
+				# a good call with the same KmerSpec, on the same thread, with the same (or the default) accumulator
+				s = calc(i)
+				s.pop('acc', None)
+				s.pop('thread', None)
+				steps.append(put(s, acc=a, thread=th))
+		elif flavour == 'acc':
+			steps = [acc() if rng.random() < 0.8 else calc() for _ in range(rng.randint(3, 6))]
+		elif flavour == 'find':
+			steps = [find() if rng.random() < 0.7 else calc() for _ in range(rng.randint(2, 5))]
+		elif flavour == 'mutate':
+			f = rng.choice(['bytearray', 'bytearray', ['bytearray', 'bytes'], 'seq'])
+			for _ in range(rng.randint(1, 2)):
+				i = rng.randrange(ns)
+				cidx = rng.randrange(len(colls))
+				steps.append(calc(i, coll=cidx, form=f, cont='list'))
+				m = mutate()
+				if m['seq'] not in colls[cidx] and colls[cidx]:
+					m['seq'] = colls[cidx][0]
+					seqs[m['seq']] = bytes.fromhex(m['new'])
+				steps.append(m)
+				steps.append(rng.choice([calc(i, coll=cidx, form=f, cont='list'), dict(find(), seq=m['seq'], form='bytearray'),
+				                         dict(acc(i), seq=m['seq'], form='bytearray')]))
+				steps.append(calc(i, coll=cidx, form=f, cont='list'))
+		elif flavour == 'file':
+			if rng.random() < 0.6:
+				# the same SequenceFile and KmerSpec before and after the caller rewrote the file
+				i = rng.randrange(ns)
+				first = filestep(i)
+				first.pop('acc', None)
+				steps.append(first)
+				rw = rewrite()
+				steps.append(dict(rw, file=first['file']))
+				files[first['file']] = dict(files[first['file']], bad=None)
+				steps.append(dict(first) if rng.random() < 0.5 else
+				             put(dict(op='files', spec=i, files=[first['file']] + [rng.choice(goodfiles())], conc=rng.choice(['none', 'threads', 'executor']))))
+			for _ in range(rng.randint(1, 4)):
+				steps.append(rng.choice([filestep, filestep, filesstep, filesstep, rewrite, calc])())
+		elif flavour == 'cli':
+			steps = [dict(op='cli', spec=0, files=[rng.randrange(len(files)) for _ in range(rng.randint(1, 3))]),
+			         put(dict(op='files', spec=1, files=[rng.randrange(len(files)) for _ in range(2)], conc='processes')),
+			         rewrite(),
+			         dict(op='cli', spec=1, files=[rng.randrange(len(files)) for _ in range(rng.randint(1, 3))]),
+			         dict(op='cli', spec=0, files=list(range(len(files))))]
+		else:
+			for _ in range(rng.randint(2, 6)):
+				r = rng.random()
+				if r < 0.12:
+					i, th = rng.randrange(ns), thread()
+					a = accsel(i)
+					steps.append(failing(i, a, th))
+					s = calc(i)
+					s.pop('acc', None)
+					s.pop('thread', None)
+					steps.append(put(s, acc=a, thread=th))
+				else:
+					steps.append(rng.choice([calc, calc, acc, find, mutate, filestep, filesstep, rewrite])())
+		return dict(specs=specs, seqs=seqs0, colls=colls, **({'files': files0} if files0 else {}), steps=steps)
+
+	def state_reversed(c):
+		"""the same calls in the opposite order (caller-side changes keep their place between the calls around them)"""
+		if any(s['op'] in ('mutate', 'rewrite') for s in c['steps']):
+			return None
+		return dict(c, steps=c['steps'][::-1])
+
+	flavours = ['calc'] * 3 + ['fail'] * 3 + ['acc'] * 2 + ['find'] + ['mutate'] * 2 + ['file'] * 2 + ['mix'] * 3
+	for n_state in range(ctx.pick(1120, 9600)):
+		fl = flavours[n_state % len(flavours)]
+		case = state_case(fl)
+		ctx.count('stream:state-' + fl)
+		yield 'state', case
+		if n_state % 5 < 2:
+			rev = state_reversed(case)
+			if rev is not None:
+				ctx.count('stream:state-reversed-order')
+				yield 'state', rev
+	for _ in range(ctx.pick(4, 40)):
+		ctx.count('stream:state-cli')
+		yield 'state', state_case('cli')
 	# long sequences, described by a seed (Python reference only)
 	# lowfrom: lower-case letters only in the last part of the sequence
 	bigs = [dict(lens=[70000], alpha='upper'), dict(lens=[150000], alpha='upper', lowfrom=0.6), dict(lens=[2 ** 16 + 40, 2 ** 15 + 7, 0, 131100], alpha='mixed', junk=50),
